@@ -96,7 +96,7 @@ func genC03(rt *rapid.T) C03Case {
 		o.TopTermsCap = rapid.SampledFrom([]int{0, 0, 0, 1, 2, 3, 5}).Draw(rt, "cap")
 		c.Options = append(c.Options, o)
 	}
-	kinds := []string{"load", "loadpersonal", "update", "update", "loadmon", "grow", "grow", "search", "search", "search", "search"}
+	kinds := swarmKinds(rt, []string{"load", "loadpersonal", "update", "update", "loadmon", "grow", "grow", "search", "search", "search", "search"}, "search")
 	opGen := rapid.Custom(func(rt *rapid.T) C03Op {
 		op := C03Op{Kind: rapid.SampledFrom(kinds).Draw(rt, "kind")}
 		op.DB = rapid.IntRange(0, len(c.DBs)-1).Draw(rt, "db")
